@@ -278,6 +278,7 @@ impl Server {
     fn set_file_content(&mut self, uri: &Url, text: &str) {
         let path = UrlExt::to_file_path(uri);
         let mut vfs = self.vfs.write().unwrap();
+        vfs.set_open_document(path.clone(), text.to_string());
         let file_id = vfs.assign_or_get_file_id(path);
         let text = Arc::from(text);
         self.host.set_file_content(file_id, text);
